@@ -16,8 +16,13 @@ def snapshot(obj, depth=0):
             dtype = str(obj.dtype)
         except Exception:  # pylint: disable=broad-except
             names, keys, dtype = (), (), "?"
+        try:
+            # the public exponents, copied (an implementation may cache the array)
+            exponents = tuple(map(tuple, numpy.array(obj.exponents, copy=True).tolist()))
+        except Exception:  # pylint: disable=broad-except
+            exponents = ("unreadable",)
         return ("poly", tuple(obj.shape), dtype, names, keys, str(base.dtype), base.tobytes(),
-                bool(obj.flags.writeable))
+                bool(obj.flags.writeable), exponents)
     if isinstance(obj, numpy.ndarray):
         if obj.dtype == object:
             if depth > 3:
@@ -39,7 +44,7 @@ def snapshot(obj, depth=0):
 
 
 FIELDS = {"poly": ("kind", "shape", "dtype", "names", "keys", "storage dtype", "coefficient bytes",
-                   "writeable"),
+                   "writeable", "exponents"),
           "arr": ("kind", "shape", "dtype", "bytes", "writeable")}
 
 
